@@ -425,12 +425,30 @@ def dead_connection_case(seed):
     from . import c16
 
     rng = random.Random(seed)
-    kind = rng.choice(["connect-200", "terminate-pipelined", "h2c-404", "h2c-connect", "pipelined-reset"])
+    kind = rng.choice(["connect-200", "terminate-pipelined", "h2c-404", "h2c-connect", "pipelined-reset", "h2-idle-reset", "longpoll-reset",
+                       "longpoll-read-timeout"])
     d = rng.choice([0.0, 2.0])
     answer = [("recv",), ("sleep", d), ("send", {"type": "http.response.start", "status": 200, "headers": []}),
               ("send", {"type": "http.response.body", "body": b"hello", "more_body": False})]
     names = ()
-    if kind == "pipelined-reset":
+    alpn = None
+    rto = None
+    if kind == "h2-idle-reset":
+        # an HTTP/2 connection whose only request has been answered; the client resets: the send task must not outlive it
+        import h2.config
+        import h2.connection
+
+        c = h2.connection.H2Connection(h2.config.H2Configuration(client_side=True, header_encoding=None))
+        c.initiate_connection()
+        c.send_headers(1, [(b":method", b"GET"), (b":path", b"/a"), (b":scheme", b"https"), (b":authority", b"x")], end_stream=True)
+        alpn = "h2"
+        script = [("send", c.data_to_send()), ("sleep", d + 1.0), ("reset",), ("sleep", 3.0)]
+    elif kind in ("longpoll-reset", "longpoll-read-timeout"):
+        # the application waits in receive() for its disconnect; the connection ends by a reset / the read timeout
+        answer = [("recv",), ("recv",), ("return",)]
+        rto = 2 if kind == "longpoll-read-timeout" else None
+        script = [("send", b"GET /poll HTTP/1.1\r\nHost: x\r\n\r\n"), ("sleep", 1.0)] + ([("reset",)] if rto is None else [("sleep", 3.0)]) + [("sleep", 3.0)]
+    elif kind == "pipelined-reset":
         # a request is pipelined behind a streaming response, the client resets, the next write fails, the application
         # returns on its disconnect (finding F64)
         d = 2.0
@@ -455,7 +473,8 @@ def dead_connection_case(seed):
         cfg = R.make_config(names)
         cfg._log = R.RecLog([])
         cfg.keep_alive_timeout = 30.0
-        res = run(c16.scripted([answer, answer]), cfg, script, tail=20.0)
+        cfg.read_timeout = rto
+        res = run(c16.scripted([answer, answer]), cfg, script, alpn=alpn, tail=20.0)
         if res["handler_done"] is None or res["leftovers"]:
             fails.append({"signature": "handler-not-finished:" + kind, "backend": backend, "leftovers": res["leftovers"], "desc": desc,
                           "error": res["handler_error"]})
@@ -520,7 +539,7 @@ def timer_case(res, T):
 def run(ctx):
     fns = [(h1_case, ctx.scale(360, 2000, 600)), (loss_case, ctx.scale(240, 1200, 400)), (ws_case, ctx.scale(48, 300, 100)),
            (h2_case, ctx.scale(48, 300, 100)), (h2_blocked_eof_case, ctx.scale(16, 100, 30)), (h2_slow_client_case, ctx.scale(8, 60, 20)), (stalled_client_error_case, ctx.scale(6, 40, 12)), (h1_close_pipelined_case, ctx.scale(16, 100, 30)), (terminate_case, ctx.scale(12, 100, 40)),
-           (dead_connection_case, ctx.scale(16, 100, 30))]
+           (dead_connection_case, ctx.scale(32, 200, 60))]
     oracle_failures, descs = [], []
     for fn, n in fns:
         for i in range(n):
